@@ -129,6 +129,13 @@ def provider (mac : Str → Str → List UInt8) (remote : Str) (lookup : Str →
   | none => .error .noCreds
   | some ts => provAll mac remote lookup ts
 
+/-- Several providers (one per remote cluster) asked one after the other on behalf of ONE incoming
+request, i.e. with the same credentials object in the request context: every provider sees the
+caller's original tokens — a provider does not modify the credentials it reads. -/
+def provSeq (mac : Str → Str → List UInt8) (lookup : Str → Lookup) (creds : Option (List Str))
+    (remotes : List Str) : List (Except ProvErr (List Str)) :=
+  remotes.map (fun R => provider mac R lookup creds)
+
 /-- What `rpc.Conn.requestAndDecode` does with the provider's answer: the first token becomes the
 Authorization header, the others the `reader_tokens` parameter. -/
 def sBearer : Str := "Bearer ".toList
